@@ -34,6 +34,18 @@ def arm_name(t):
     return "|".join(sorted(names))
 
 
+def _walk_values(v):
+    yield v
+    if isinstance(v, (tuple, list)):
+        for x in v:
+            for y in _walk_values(x):
+                yield y
+    elif isinstance(v, dict):
+        for x in v.values():
+            for y in _walk_values(x):
+                yield y
+
+
 def run(facts, rep, tier):
     c = facts.impl
     ems = emit.find_emitters(facts, c)
@@ -252,13 +264,69 @@ def run(facts, rep, tier):
                    "`%s` overwrites the flag on every variant: a variant with additionalProperties:false that is not the last one loses #[serde(deny_unknown_fields)] and accepts unknown members" % how, n.get("sp"))
     rep.floor("C05.W3", "accumulations of deny_unknown_fields over variants", n_j, 4)
 
+    # W4 by evaluation: convert_string answers the unconstrained String only for a vacuous validation
+    import minirust as mr5
+    evaluated4 = False
+    cs_ = [x for x in c.user_fns() if x["fn"].endswith("TypeSpace::convert_string")]
+    if cs_:
+        hh4 = cs_[0]
+        ins4 = c.fns[hh4["fn"]]["inputs"]
+
+        def run4(mx, mn, pat):
+            val = mr5.some(("struct", "StringValidation", {"max_length": mr5.some(float(mx)) if mx is not None else mr5.NONE, "min_length": mr5.some(float(mn)) if mn is not None else mr5.NONE,
+                                                             "pattern": mr5.some(pat) if pat else mr5.NONE}))
+            args = []
+            for t_ in ins4:
+                if "TypeSpace" in t_:
+                    args.append(("struct", "TypeSpace", {"uses_regress": False, "settings": ("struct", "S", {})}))
+                elif "StringValidation" in t_:
+                    args.append(val)
+                elif t_.endswith("Name"):
+                    args.append("Name")
+                elif "Option<" in t_:
+                    args.append(mr5.NONE)
+                else:
+                    args.append(("opaque",))
+            hooks = {"Regex::new": lambda m_, *a_: ("Ok", ("re",)), "from_metadata_with_string_validation": lambda m_, *a_: ("newtype",), "assign_type": lambda m_, *a_: ("id",),
+                     "new_native": lambda m_, *a_: ("native",), "new_native_params": lambda m_, *a_: ("native",)}
+            return mr5.Machine(c, hooks=hooks).run_fn(hh4, args)
+        bad4w = None
+        n4 = 0
+        try:
+            for mx in (None, 0, 1, 5):
+                for mn in (None, 0, 1):
+                    for pat in (None, "a+"):
+                        r_ = run4(mx, mn, pat)
+                        n4 += 1
+                        plain = isinstance(r_, tuple) and r_[0] == "Ok" and isinstance(r_[1], tuple) and r_[1][0] == "tup" and r_[1][1][0] == ("ctor", "String", [])
+                        vac = mx is None and pat is None and mn in (None, 0)
+                        if plain and not vac:
+                            bad4w = "a string schema with %s becomes the unconstrained `String`: the bound it states is not represented, so values that violate it are accepted by Deserialize, FromStr and TryFrom" % ", ".join(
+                                x for x in ("maxLength %s" % mx if mx is not None else "", "minLength %s" % mn if mn not in (None, 0) else "", "a pattern" if pat else "") if x)
+                            break
+                    if bad4w:
+                        break
+                if bad4w:
+                    break
+            evaluated4 = True
+        except mr5.Unknown as e_:
+            rep.info("C05.W4 not evaluable (%s): the arm-shaped rule decides" % e_)
+        if evaluated4:
+            rep.ob("C05.W4", "plain-string-iff-vacuous", bad4w is None, "evaluated on %d validations: the unconstrained String is answered only when no bound is stated (minLength 0 aside)" % n4 if bad4w is None else bad4w, c.fns[hh4["fn"]].get("sp"))
     # W4: only vacuous string validations become plain String
     sites = []
     for hh in c.user_fns():
         for m, _ in nodes(hh["body"], "match"):
             if m.get("src") == "normal" and "StringValidation" in c.ty(m.get("scty")):
                 sites.append((hh, m))
-    if rep.floor("C05.W4", "case analysis of a string schema's validation", len(sites), 1):
+    class _Adv4:
+        def ob(self, rule, key, ok, detail="", where=None, nontrivial=True):
+            return rep.ob(rule, key, ok, detail, where, nontrivial) if ok else (rep.info("advisory (decided by evaluation): %s/%s" % (rule, key)) or False)
+
+        def floor(self, rule, what, count, minimum):
+            return rep.floor(rule, what, count, minimum) if count >= minimum else (rep.info("advisory: anchor `%s` not found" % what) or False)
+    R4w = _Adv4() if evaluated4 else rep
+    if R4w.floor("C05.W4", "case analysis of a string schema's validation", len(sites), 1):
         hh, m = sites[0]
         n_plain = 0
         for a in m["arms"]:
@@ -272,7 +340,7 @@ def run(facts, rep, tier):
                 key = "plain-string-only-if-vacuous#%d" % sum(1 for o in rep.obligations if o["key"].startswith("C05.W4/plain-string-only-if-vacuous#"))
                 if not structs:
                     ok = psrc(alt) == "None"
-                    rep.ob("C05.W4", key, ok, "`None` (no validation)" if ok else "alternative `%s` sends a string schema to the unconstrained String without looking at its validation" % psrc(alt)[:60], a.get("sp"))
+                    R4w.ob("C05.W4", key, ok, "`None` (no validation)" if ok else "alternative `%s` sends a string schema to the unconstrained String without looking at its validation" % psrc(alt)[:60], a.get("sp"))
                     continue
                 bad = []
                 seen = set()
@@ -285,9 +353,9 @@ def run(facts, rep, tier):
                         bad.append("%s: %s" % (fname, t))
                 if structs[0].get("rest") or not {"max_length", "min_length", "pattern"} <= seen:
                     bad.append("pattern does not name all of max_length, min_length, pattern")
-                rep.ob("C05.W4", key, not bad, "StringValidation{max_length: None, min_length: None, pattern: None}" if not bad else
+                R4w.ob("C05.W4", key, not bad, "StringValidation{max_length: None, min_length: None, pattern: None}" if not bad else
                        "a string schema with %s becomes the unconstrained `String`: the bound it states is not represented, so values that violate it are accepted by Deserialize, FromStr and TryFrom" % ", ".join(bad), a.get("sp"))
-        rep.floor("C05.W4", "arms yielding the unconstrained String", n_plain, 1)
+        R4w.floor("C05.W4", "arms yielding the unconstrained String", n_plain, 1)
 
     # W5: the string filter reads every constraint on every accepting path
     sv = [h for h in c.user_fns() if h["fn"].endswith("StringValidator::is_valid")]
@@ -359,6 +427,66 @@ def run(facts, rep, tier):
                                    "the inner schema is the outer one with the type narrowed (and the null enum value / null default removed)" if okb and not extra else
                                    "the inner schema of a `[T, null]` type is built from `%s`%s, not from the schema itself: sibling keywords (allOf / oneOf / not / $ref, validations) are dropped and values they forbid are accepted" % (bt[:90] or "nothing", (" overriding %s" % extra) if extra else ""), x_.get("sp"))
     rep.floor("C05.W7", "rewrites of a nullable type array into Option<T>", n7, 1)
+
+    # W8: `type: [A, B, ..]` is split into one schema per type; each keeps the validation (and format) that belongs to its
+    # type - evaluated: the closure that builds the per-type schema is run for each of the seven types with marked inputs
+    import minirust as mr8
+    cso = [x for x in c.user_fns() if x["fn"].endswith("TypeSpace::convert_schema_object")]
+    done8 = False
+    if cso:
+        h8 = cso[0]
+        for n_, anc_ in walk(h8["body"]):
+            if not (n_.get("k") == "mcall" and n_["name"] == "map" and n_.get("args") and n_["args"][0].get("k") == "closure"):
+                continue
+            cl = n_["args"][0]
+            if not any(x.get("k") == "struct" and x["path"].endswith("SubschemaValidation") for x, _ in walk(cl["body"])):
+                continue
+            # the enclosing arm's pattern names the parts of the schema
+            names = {}
+            for a_ in anc_:
+                if a_.get("k") is None and "pat" in a_:
+                    for sp_, _ in walk(a_["pat"]):
+                        if sp_.get("k") == "struct" and sp_["path"].endswith("SchemaObject"):
+                            for fname, fp in sp_["fields"]:
+                                if fp.get("k") == "bind":
+                                    names[fname] = fp["name"]
+            need = {"String": ("string", "format"), "Number": ("number", "format"), "Integer": ("number", "format"), "Object": ("object",), "Array": ("array",), "Null": (), "Boolean": ()}
+            # the schema itself (a helper may read the parts from it instead of from the pattern's bindings)
+            sparam = None
+            for i8, t8 in enumerate(c.fns[h8["fn"]]["inputs"]):
+                if t8.replace("&", "").replace("'a ", "").strip().endswith("schema::SchemaObject") and i8 < len(h8.get("params", [])) and h8["params"][i8].get("k") == "bind":
+                    sparam = h8["params"][i8]["name"]
+            mach8 = mr8.Machine(c)
+            bad8 = None
+            try:
+                for T, req in need.items():
+                    marks = {k_: mr8.some(("mark", k_)) for k_ in ("format", "number", "string", "array", "object")}
+                    init8 = {names[k_]: marks[k_] for k_ in marks if k_ in names}
+                    if sparam:
+                        init8[sparam] = ("struct", "SchemaObject", dict(marks, metadata=mr8.NONE, instance_type=mr8.NONE, enum_values=mr8.NONE, const_value=mr8.NONE, subschemas=mr8.NONE, reference=mr8.NONE, extensions=("map", {})))
+                    env8 = mr8.Env(init=init8)
+                    mach8.fuel = 50000
+                    r_ = mach8.apply(("closure", cl, env8), [("ctor", T, [])])
+                    inner = None
+                    for x_ in _walk_values(r_):
+                        if isinstance(x_, tuple) and len(x_) == 3 and x_[0] == "struct" and x_[1] == "SchemaObject" and "instance_type" in x_[2]:
+                            inner = x_[2]
+                    if inner is None:
+                        bad8 = "no per-type schema is built for `%s`" % T.lower()
+                        break
+                    for k_ in req:
+                        if inner.get(k_) != mr8.some(("mark", k_)):
+                            bad8 = "the schema built for the `%s` member of a type array does not carry the schema's `%s` validation: values that violate it are accepted by that alternative" % (T.lower(), k_)
+                            break
+                    if bad8:
+                        break
+            except mr8.Unknown as e_:
+                rep.info("C05.W8 not evaluable (%s)" % e_)
+                continue
+            done8 = True
+            rep.ob("C05.W8", "per-type-schema-keeps-its-validation", bad8 is None, "evaluated for the seven types: string keeps string+format, number/integer keep number+format, object/array keep theirs" if bad8 is None else bad8, cl.get("sp") or n_.get("sp"))
+            break
+    rep.floor("C05.W8", "per-type schema builder of a type array (evaluated)", 1 if done8 else 0, 1)
 
     # W6: aliases wrap the referenced type itself
     from lib import Canon
